@@ -25,6 +25,9 @@ Per operator of the catalogue:
                          (type of a member), `bad_width_enum_base_rejected`, `bad_width_array_element_rejected`,
                          `bad_width_sizeof_rejected`, `bad_width_make_reserved_rejected`, `bad_width_make_const_rejected`
                          (each for `uint24` / `int24` followed by anything)
+                         the correspondence run also sweeps both signs x every width 0..140 other than 8/16/32/64, 256, 512 and
+                         leading-zero spellings (`uint08`, `int016`, `uint0064`) at every site kind (operator `width-sweep` of
+                         `Corrupt.lean`; the model arbitrates)
 * wrong-case ........... `wrong_case_alias_name_rejected`, `wrong_case_member_name_rejected` (a member name with its
                          first letter in upper case), `enum_name_rejected`, `struct_name_rejected` (second letter not
                          lower case); lower-cased constants: none (a lower-cased constant IS a member name; what
